@@ -67,7 +67,8 @@ func NewSolver(name string, timeoutMS int) (*Solver, error) {
 	}
 	s := &Solver{name: name, cmd: cmd, in: in, out: bufio.NewReaderSize(out, 1<<16), p: newPrinter(), timeoutMS: timeoutMS}
 	if p := os.Getenv("SYMX_SMTLOG"); p != "" {
-		f, _ := os.OpenFile(p, os.O_CREATE|os.O_WRONLY|os.O_APPEND, 0o644)
+		// one transcript per solver process: commands as sent, answers as "; <- " comments
+		f, _ := os.OpenFile(fmt.Sprintf("%s/smt-%d-%d.smt2", p, os.Getpid(), time.Now().UnixNano()), os.O_CREATE|os.O_WRONLY|os.O_APPEND, 0o644)
 		s.log = f
 	}
 	s.send("(set-option :produce-models true)\n")
